@@ -4,6 +4,10 @@
 //!   obj  <mode> <hexbytes>                                  arbitrary bytes
 //!   objw <mode> <hexbytes> <nv> <nf> <3nv f32 bits> <3nf zero-based indices>
 //!                                                           generated well-formed file + what it lists
+//!   objr <mode> <hexbytes>     read_obj from a slice          objs <seed> <hexbytes>  short reads 1..7
+//!   objio <cut> <hexbytes>     reader failing after <cut> bytes  objf <mode> <hexbytes>  load_obj from a temp file
+//!   objmiss <k>                load_obj of a missing path
+//!        (errors of these ops are followed by `| <hex of Display> <source() is Some>`)
 //!   f32  <hexbytes>      `str::parse::<f32>` on the Latin-1 decoding  -> some <bits> | none
 //!   usz  <hexbytes>      `str::parse::<usize>`                         -> some <n> | none
 //! output of obj/objw
@@ -11,7 +15,9 @@
 //!   err unsupported <code point> | err end | err invalid | err oob <vertex|texcoord|normal> <i>
 use std::panic::{catch_unwind, AssertUnwindSafe};
 
-use rg::io::{parse_obj, Error};
+use std::io::{BufReader, Read};
+
+use rg::io::{load_obj, parse_obj, read_obj, Error};
 
 use vharness::util::*;
 
@@ -425,6 +431,26 @@ pub fn gen(rng: &mut Rng, tier: Tier, out: &mut Vec<String>) {
     for _ in 0..n_noise {
         out.push(format!("obj noise {}", hex_bytes(&noise(rng))));
     }
+    // the same reader behind `read_obj` (slice, short reads, failing mid-way) and `load_obj` (file)
+    let n_io = if q { 500 } else { 10_000 };
+    for i in 0..n_io {
+        let bytes = match i % 3 {
+            0 => rng.pick(&wf_pool).clone(),
+            1 => { let base = rng.pick(&wf_pool).clone(); mutate(rng, &base).1 }
+            _ => noise(rng),
+        };
+        let h = hex_bytes(&bytes);
+        out.push(format!("objr reader {h}"));
+        out.push(format!("objs {} {h}", h64(rng.u64())));
+        if i % 2 == 0 {
+            out.push(format!("objf file {h}"));
+        }
+        let cut = match rng.below(4) { 0 => 0, 1 => bytes.len(), 2 => bytes.len() + 1, _ => rng.below(bytes.len() as u64 + 1) as usize };
+        out.push(format!("objio {cut} {h}"));
+    }
+    for k in 0..3 {
+        out.push(format!("objmiss {k}"));
+    }
     // every single byte, and every byte as an item
     for b in 0..=255u8 {
         out.push(format!("obj byte {}", hex_bytes(&[b])));
@@ -495,6 +521,83 @@ pub fn gen(rng: &mut Rng, tier: Tier, out: &mut Vec<String>) {
 // runner
 // ---------------------------------------------------------------------------
 
+/// Result in the protocol's vocabulary.  With `detail`, an error is followed by
+/// `| <hex of its Display text> <1 if source() is Some else 0>`; for an OS error the text is
+/// platform dependent, so only `pre` (starts with "I/O error: ") is reported.
+fn render(res: Result<re::geom::mesh::Builder<()>, Error>, detail: bool) -> String {
+    use std::error::Error as _;
+    match res {
+        Ok(b) => {
+            let mut s = format!("ok {} {}", b.mesh.verts.len(), b.mesh.faces.len());
+            for v in &b.mesh.verts {
+                s += &format!(" {} {} {}", h32(v.pos.x()), h32(v.pos.y()), h32(v.pos.z()));
+            }
+            for f in &b.mesh.faces {
+                s += &format!(" {} {} {}", f.0[0], f.0[1], f.0[2]);
+            }
+            let built = catch_unwind(AssertUnwindSafe(|| b.build().faces.len()));
+            s += if built.is_ok() { " bok" } else { " bpanic" };
+            s
+        }
+        Err(e) => {
+            let head = match &e {
+                Error::UnsupportedItem(c) => format!("err unsupported {}", *c as u32),
+                Error::UnexpectedEnd => "err end".into(),
+                Error::InvalidValue => "err invalid".into(),
+                Error::IndexOutOfBounds(what, i) => format!("err oob {what} {i}"),
+                Error::Io(io) => format!("err io {:?}", io.kind()),
+            };
+            if !detail {
+                return head;
+            }
+            let text = format!("{e}");
+            let src = if e.source().is_some() { 1 } else { 0 };
+            let shown = match &e {
+                Error::Io(io) if io.raw_os_error().is_some() => {
+                    if text.starts_with("I/O error: ") { "pre".to_string() } else { "nopre".to_string() }
+                }
+                _ => hex_bytes(text.as_bytes()),
+            };
+            format!("{head} | {shown} {src}")
+        }
+    }
+}
+
+/// Reader that hands out 1..7 bytes per call.
+struct Chunky { data: Vec<u8>, pos: usize, state: u64 }
+impl Read for Chunky {
+    fn read(&mut self, buf: &mut [u8]) -> std::io::Result<usize> {
+        self.state ^= self.state << 13; self.state ^= self.state >> 7; self.state ^= self.state << 17;
+        let want = 1 + (self.state % 7) as usize;
+        let n = want.min(buf.len()).min(self.data.len() - self.pos);
+        buf[..n].copy_from_slice(&self.data[self.pos..self.pos + n]);
+        self.pos += n;
+        Ok(n)
+    }
+}
+
+/// Reader that delivers `cut` bytes one at a time and then fails.
+struct Failing { data: Vec<u8>, pos: usize, cut: usize }
+impl Read for Failing {
+    fn read(&mut self, buf: &mut [u8]) -> std::io::Result<usize> {
+        if self.pos >= self.cut.min(self.data.len()) {
+            return Err(std::io::Error::new(std::io::ErrorKind::BrokenPipe, "boom"));
+        }
+        if buf.is_empty() { return Ok(0) }
+        buf[0] = self.data[self.pos];
+        self.pos += 1;
+        Ok(1)
+    }
+}
+
+fn scratch_file() -> std::path::PathBuf {
+    use std::sync::atomic::{AtomicUsize, Ordering};
+    static N: AtomicUsize = AtomicUsize::new(0);
+    let dir = std::env::var_os("VERIF_SCRATCH").map(std::path::PathBuf::from).unwrap_or_else(std::env::temp_dir);
+    let _ = std::fs::create_dir_all(&dir);
+    dir.join(format!("vharness-c14-{}-{}.obj", std::process::id(), N.fetch_add(1, Ordering::Relaxed)))
+}
+
 fn latin1(b: &[u8]) -> String {
     b.iter().map(|&c| char::from(c)).collect()
 }
@@ -503,28 +606,33 @@ pub fn run(t: &[&str]) -> String {
     match t[0] {
         "obj" | "objw" => {
             let bytes = parse_hex_bytes(t[2]);
-            match parse_obj(bytes) {
-                Ok(b) => {
-                    let mut s = format!("ok {} {}", b.mesh.verts.len(), b.mesh.faces.len());
-                    for v in &b.mesh.verts {
-                        s += &format!(" {} {} {}", h32(v.pos.x()), h32(v.pos.y()), h32(v.pos.z()));
-                    }
-                    for f in &b.mesh.faces {
-                        s += &format!(" {} {} {}", f.0[0], f.0[1], f.0[2]);
-                    }
-                    let built = catch_unwind(AssertUnwindSafe(|| {
-                        let m = b.build();
-                        m.faces.len()
-                    }));
-                    s += if built.is_ok() { " bok" } else { " bpanic" };
-                    s
-                }
-                Err(Error::UnsupportedItem(c)) => format!("err unsupported {}", c as u32),
-                Err(Error::UnexpectedEnd) => "err end".into(),
-                Err(Error::InvalidValue) => "err invalid".into(),
-                Err(Error::IndexOutOfBounds(what, i)) => format!("err oob {what} {i}"),
-                Err(e) => format!("err other {}", format!("{e:?}").replace(' ', "_")),
-            }
+            render(parse_obj(bytes), false)
+        }
+        // the same bytes through `read_obj` from a slice reader
+        "objr" => render(read_obj(&parse_hex_bytes(t[2])[..]), true),
+        // ... through a buffered reader whose source returns short reads of 1..7 bytes
+        "objs" => {
+            let src = Chunky { data: parse_hex_bytes(t[2]), pos: 0, state: pu64h(t[1]) | 1 };
+            render(read_obj(BufReader::with_capacity(8, src)), true)
+        }
+        // ... from a reader that fails with an io::Error after `cut` bytes
+        "objio" => {
+            let cut: usize = t[1].parse().unwrap();
+            render(read_obj(Failing { data: parse_hex_bytes(t[2]), pos: 0, cut }), true)
+        }
+        // ... through `load_obj` from a temporary file
+        "objf" => {
+            let path = scratch_file();
+            std::fs::write(&path, parse_hex_bytes(t[2])).expect("write temp file");
+            let r = load_obj(&path);
+            let _ = std::fs::remove_file(&path);
+            render(r, true)
+        }
+        // a path that does not exist
+        "objmiss" => {
+            let mut path = scratch_file();
+            path.set_extension(format!("missing{}", t[1]));
+            render(load_obj(&path), true)
         }
         "f32" => match latin1(&parse_hex_bytes(t[1])).parse::<f32>() {
             Ok(x) => format!("some {}", h32(x)),
